@@ -43,6 +43,7 @@ type Event struct {
 }
 
 type task struct {
+	g         uintptr // identity of the task's goroutine
 	rfd, wfd  int
 	live      bool
 	localStep int64
@@ -89,6 +90,8 @@ type S struct {
 	Pairs    [][2]uint32
 	// BlockedPolls counts hand-overs forced by a task that could not take a lock.
 	BlockedPolls int64
+	// ForeignYields counts yields reached on goroutines the code under test started itself.
+	ForeignYields int64
 }
 
 // Switch2 is a replayable switch point.
@@ -237,7 +240,20 @@ func (s *S) Start() {
 // Enter parks a freshly created task until it is scheduled.
 //
 //go:norace
-func (s *S) Enter(t int) { s.park(t) }
+func (s *S) Enter(t int) {
+	s.tasks[t].g = Getg()
+	s.park(t)
+}
+
+// Foreign reports that the caller is not the goroutine of the running task:
+// a goroutine the code under test started by itself (a parallelised helper).
+// Such goroutines run unsupervised – the scheduler neither counts nor
+// preempts them – while the task that waits for them stays "running".
+//
+//go:norace
+func (s *S) Foreign() bool {
+	return s.active && Getg() != s.tasks[s.cur].g
+}
 
 //go:norace
 func (s *S) record(sw Switch) {
@@ -338,6 +354,10 @@ func (s *S) Yield(site uint32) {
 		return
 	}
 	t := s.cur
+	if Getg() != s.tasks[t].g {
+		s.ForeignYields++
+		return
+	}
 	s.step++
 	s.tasks[t].localStep++
 	s.lastSite = site
@@ -421,6 +441,11 @@ func (s *S) Blocked() {
 		panic(DeadlockPanic{})
 	}
 	t := s.cur
+	if Getg() != s.tasks[t].g {
+		// a goroutine of the code under test's own: it can only wait
+		osyield()
+		return
+	}
 	s.step++
 	s.BlockedPolls++
 	if s.BlockedPolls > 2000000 {
@@ -466,6 +491,11 @@ func (s *S) nextLiveAfter(t int) int {
 		}
 	}
 	return -1
+}
+
+//go:norace
+func osyield() {
+	syscall.Syscall(syscall.SYS_SCHED_YIELD, 0, 0, 0)
 }
 
 // OpBegin / OpEnd bracket an operation of the running task.
